@@ -257,7 +257,7 @@ def run(ctx):
                             closure_ok, why = False, "closure %s calls %s" % (cn, cc)
                     if not has_eq:
                         closure_ok, why = False, "closure %s performs no equality comparison" % cn
-                    elif closure_ok and not closure_true_implies_equality(cf):
+                    elif closure_ok and closure_true_implies_equality(cf) is False:
                         closure_ok, why = False, "closure %s can answer true without a successful equality comparison of the origin (`||`, `!=` or a constant true)" % cn
             member_edges.append(true_edge)
             member_desc.append({"op": v[1], "closure_ok": closure_ok, "line": st["span"]["line"]})
